@@ -133,6 +133,7 @@ func vC08Value(tag string) (sqlite.Value, vWant) {
 		return symSQLFloat(f), vWant{kind: rFLOAT, f: f}
 	case 2:
 		b := symBytes("s"+tag, 1)
+		symAssume(b[0] < utf8.RuneSelf) // text that is not UTF-8 may be refused (VerifH_C08_roundtrip)
 		return symSQLText(string(b)), vWant{kind: rTEXT, b: b}
 	case 3:
 		b := symBytes("b"+tag, 1)
